@@ -155,6 +155,10 @@ func (g *Gen) Make(kind string, kids, hidden []*Node) *Node {
 		n.N = []int{r.Intn(len(RuntimeErrors))}
 	case "tags", "tagsafe":
 		n.N = []int{r.Intn(100)}
+	case "newfw":
+		n.N = []int{r.Intn(2)} // 1: %[1]w instead of %w
+	case "goerrorfmulti":
+		n.N = []int{r.Intn(2)} // 1: the message comes AFTER the two %w operands
 	case "stacksafeleaf":
 		n.N = []int{r.Intn(2)} // 1: the recorded stack has exactly ONE frame
 	case "http":
